@@ -258,6 +258,15 @@ func (a *attempt) realOutcome(r string) outcome {
 	if st, ok := a.Srv.Fail[r]; ok {
 		return outcome{Class: clsFail, Stage: st}
 	}
+	if a.Start == mx.OK && a.Rcpt[r] == mx.OK && a.BodyKind != "" && a.Body == mx.OK {
+		if _, bad := a.Status[r]; !bad {
+			// The client reported no failure at any stage for this recipient
+			// although the next hop committed nothing and refused nothing:
+			// "accepted, never committed, nothing failed" (matters when reports
+			// are suppressed: such a recipient did not fail, it vanished).
+			return outcome{Class: clsUnfinished, Stage: "reported-ok-without-commit-at-hop"}
+		}
+	}
 	return outcome{Class: clsFail, Stage: "client"}
 }
 
